@@ -89,6 +89,15 @@ class NpArr(Model):
     def m___len__(self, I):
         return len(self.data)
 
+    def m_sort(self, I):
+        """in-place ascending sort (insertion sort with symbolic comparisons: forks on the order)"""
+        d = self.data
+        for i in range(1, len(d)):
+            j = i
+            while j > 0 and I.P.branch(I.compare(ast.Lt(), d[j], d[j - 1])):
+                d[j], d[j - 1] = d[j - 1], d[j]
+                j -= 1
+
 
 class SymSeq(Model):
     """Sequence of symbolic length: a core (key, core_len: Num Int >= 0, elem: index Num -> value) followed by a concrete
@@ -624,6 +633,18 @@ def py_hash(I, x):
         m = x.cls.find("methods", "__hash__")
         if m:
             return I.call_function(m, [x], {})
+        return id(x)  # identity hash
+    if isinstance(x, (tuple, list)):
+        return alg.raw_app("tuplehash", *[I.to_num(py_hash(I, e)) for e in x], sort="Int") if x else 0
+    if isinstance(x, SetVal):
+        tot = Num.const(0)
+        for e in x.items:
+            tot = tot + I.to_num(py_hash(I, e))
+        return alg.raw_app("sethash", tot, Num.const(len(x.items)), sort="Int")
+    if isinstance(x, (frozenset, set)):
+        return alg.raw_app("sethash", I.to_num(sum(hash(e) for e in x)), Num.const(len(x)), sort="Int")
+    if x is None or isinstance(x, (int, str, bool)):
+        return hash(x)
     if isinstance(x, Model) and hasattr(x, "hash"):
         return x.hash(I)
     if isinstance(x, Num):
